@@ -25,52 +25,63 @@ def c13a(ctx):
     fn = ctx.fn(TILE + ':TileManager.is_cached')
     g = fn.cfg
     defs = Defs(fn.node)
-    st = [v for v, sel in defs.of('stale')]
-    cmps = [c for v in st for c in ast.walk(v) if isinstance(c, ast.Compare)] or \
-        [c for s in fn.walk() if isinstance(s, ast.If) for c in ast.walk(s.test) if isinstance(c, ast.Compare) and 'timestamp' in unparse(c)]
-    ok = len(cmps) == 1
+    # decision table of the whole predicate: result <=> exists and (no threshold or written after the threshold)
+    tab = ctx.rows(table(fn.node.body, ret_kind, bool_returns=True))
+    objs = tab.atom_objs
+
+    def is_ts(e):
+        return e is not None and contains(e, lambda x: isinstance(x, ast.Attribute) and x.attr == 'timestamp')
+    a_ts = [a for a in tab.atoms if objs[a].op in ('<', '==') and (is_ts(objs[a].left) or is_ts(objs[a].right))]
+    a_ex = [a for a in tab.atoms if objs[a].op is None and contains(objs[a].expr, lambda x: is_call(x, 'self.cache.is_cached'))]
+    ok = len(a_ts) == 1 and objs[a_ts[0]].op == '<'
     detail = 'no single timestamp comparison found'
+    thr = None
+    ok_int = False
     if ok:
-        from ..cfg import norm_cmp
-        c = cmps[0]
-        at, pol = norm_cmp(c.left, c.ops[0], c.comparators[0])
-
-        def is_ts(e):
-            return contains(e, lambda x: isinstance(x, ast.Attribute) and x.attr == 'timestamp')
-
-        def is_thr(e):
-            return contains(e, lambda x: isinstance(x, ast.Name) and x.id == 'max_mtime')
-        # stale <=> ts <= max   ==  not (max < ts)
-        ok = at.op == '<' and is_thr(at.left) and is_ts(at.right) and pol is False
-        detail = 'the staleness test is `%s`: a tile written exactly at the threshold is served from the cache' % unparse(c) \
-            if at.op == '<' and is_ts(at.left) and is_thr(at.right) and pol is True else 'the staleness test is `%s`, expected int(tile.timestamp) <= max_mtime' % unparse(c)
+        at = objs[a_ts[0]]
+        # canonical atom `thr < ts`: fresh <=> thr < int(ts); stale <=> int(ts) <= thr
+        ok = is_ts(at.right) and not is_ts(at.left)
+        thr = unparse(at.left if ok else at.right)
+        detail = 'the staleness test is built on `%s`: a tile written exactly at the threshold is served from the cache' % at.text
         ts_side = at.right if is_ts(at.right) else at.left
         ok_int = is_call(ts_side, 'int')
-    ctx.check(ok, 'TileManager.is_cached:boundary', 'stale <=> int(tile.timestamp) <= max_mtime (at or before the threshold is fetched again)', fn, fail=detail)
-    if cmps:
+    a_none = [a for a in tab.atoms if thr is not None and objs[a].op == '==' and {unparse(objs[a].left), unparse(objs[a].right)} == {thr, 'None'}]
+    a_coord = [a for a in tab.atoms if '.coord' in a and 'None' in a]
+    rows_ok = False
+    if ok and len(a_ex) == 1 and len(a_none) == 1:
+        rows_ok = True
+        for asg, out, _ in tab.assignments():
+            if a_coord and asg[a_coord[0]]:
+                continue        # out-of-grid coordinate: inert (C16.d)
+            want = asg[a_ex[0]] and (asg[a_none[0]] or asg[a_ts[0]])
+            if out != ('return True' if want else 'return False'):
+                rows_ok = False
+                detail = 'for %s the predicate gives %s' % ({k: v for k, v in asg.items() if k in (a_ex[0], a_none[0], a_ts[0])}, out)
+    ctx.check(ok and rows_ok, 'TileManager.is_cached:boundary', 'cached <=> exists and (no threshold or threshold < int(tile.timestamp)): a tile written at or before '
+              'the threshold is fetched again (%d rows)' % len(tab.rows), fn, fail=detail)
+    if a_ts:
         ctx.check(ok_int, 'TileManager.is_cached:integer-timestamp', 'the tile timestamp is truncated to whole seconds before the comparison '
                   '(thresholds come from mktime/timetuple, which drop fractions)', fn,
                   fail='the tile timestamp is compared without int(): a tile written in the same second as the threshold counts as newer')
     md = g.find(lambda x: is_call(x, 'load_tile_metadata'))
-    cmpn = g.find(lambda x: x in cmps)
-    ok = bool(md) and bool(cmpn) and all(g.dominates(md[0][0], n) and md[0][0] != n for n, x in cmpn)
+    tsn = g.find(lambda x: isinstance(x, ast.Compare) and is_ts(x))
+    ok = bool(md) and bool(tsn) and all(g.dominates(md[0][0], n) and md[0][0] != n for n, x in tsn)
     ctx.check(ok, 'TileManager.is_cached:metadata-before-compare', 'load_tile_metadata dominates the timestamp comparison', fn,
               fail='the timestamp is compared before the metadata was loaded (timestamp is still None/old)')
-    # result: cached = cache.is_cached and not stale
-    sets = g.find_stmts(lambda s: isinstance(s, ast.Assign) and unparse(s.targets[0]) == 'cached' and const_value(s.value, 1) is False)
-    ok = bool(sets) and all(g.guarded(n, lambda at: at.op is None and unparse(at.expr) == 'stale', True) or
-                            g.guarded(n, lambda at: at.op == '<' and 'timestamp' in at.text, False) for n in sets)
-    ctx.check(ok, 'TileManager.is_cached:stale-is-uncached', 'a stale tile is reported as not cached', fn)
-    cond = [s for s in fn.walk() if isinstance(s, ast.If) and contains(s.test, lambda x: isinstance(x, ast.Name) and x.id == 'max_mtime')]
-    ok = bool(cond) and all('cached' in unparse(s.test) and 'None' in unparse(s.test) for s in cond)
+    ctx.check(ok and rows_ok, 'TileManager.is_cached:stale-is-uncached', 'a stale tile is reported as not cached', fn)
+    # the metadata is only loaded (and compared) for existing tiles with a threshold
+    ok = bool(md) and all(g.guarded(n, lambda at: at.op is None and contains(at.expr, lambda y: is_call(y, 'self.cache.is_cached')), True) or
+                          g.guarded(n, lambda at: at.op is None and unparse(at.expr) in [k for k, ds in defs.defs.items() if any(
+                              is_call(v, 'self.cache.is_cached') for v, sel in ds)], True) for n, x in md) and \
+        all(thr is not None and g.guarded(n, lambda at: at.op == '==' and {unparse(at.left), unparse(at.right)} == {thr, 'None'}, False) for n, x in md)
     ctx.check(ok, 'TileManager.is_cached:only-with-threshold', 'the staleness test runs only for existing tiles and a threshold that is not None', fn)
-    mm = [v for v, sel in defs.of('max_mtime')]
+    mm = [v for v, sel in defs.of(thr)] if thr else []
     ok = len(mm) == 1 and is_call(mm[0], 'self.expire_timestamp')
     ctx.check(ok, 'TileManager.is_cached:threshold-source', 'the threshold is self.expire_timestamp(tile)', fn)
     # is_stale table
     fs = ctx.fn(TILE + ':TileManager.is_stale')
     body = [s for s in fs.node.body if not (isinstance(s, ast.If) and 'isinstance' in unparse(s.test))]
-    tab = ctx.rows(table(body, ret_kind))
+    tab = ctx.rows(table(body, ret_kind, bool_returns=True))
     a_ex = [a for a in tab.atoms if 'self.cache.is_cached' in a]
     a_ok = [a for a in tab.atoms if 'self.is_cached' in a]
     ok = len(a_ex) == 1 and len(a_ok) == 1 and all((out == 'return True') == (asg[a_ex[0]] and not asg[a_ok[0]]) for asg, out, _ in tab.assignments())
